@@ -81,6 +81,15 @@ func Generate(r *sim.Rng, prop, tier string, idx int) *sim.Case {
 	default:
 		genC05(r, c, tier, idx)
 	}
+	if prop != "C04" && c.Mode != "enum" && c.Knobs["bg_timers"] == 0 && r.Chance(1, 6) {
+		// the timeout package is process-wide: other code uses it as well
+		lease := time.Duration(c.Knobs["lease_ns"])
+		c.Knobs["bg_timers"] = int64(1 + r.Intn(3))
+		c.Knobs["bg_period_ns"] = int64(sim.Pick(r, lease/7, lease/3, lease))
+		if r.Chance(1, 3) {
+			c.Knobs["bg_work_ns"] = int64(lease / 200)
+		}
+	}
 	return c
 }
 
@@ -147,6 +156,37 @@ func genC01(r *sim.Rng, c *sim.Case, tier string, idx int) {
 	}
 	for i := 0; i < nf; i++ {
 		c.Faults = append(c.Faults, sim.Fault{Seam: "acq", Kind: sim.Pick(r, "req_lost", "reply_lost"), Ord: int64(1 + r.Intn(4*nt))})
+	}
+	if r.Chance(1, 6) {
+		// one of two providers is shut down at some moment, typically while one of its
+		// Lockers holds the lock for a good part of a lease: the holder keeps holding
+		// until it unlocks, whatever Shutdown does to waiters and later attempts
+		c.Knobs["providers"] = 2
+		for ti := range c.Tasks {
+			for oi := range c.Tasks[ti].Ops {
+				if c.Tasks[ti].Ops[oi].K == "lock" {
+					// Lock panics once its provider is closed (documented); use the ctx form
+					c.Tasks[ti].Ops[oi].K = "lockctx"
+					c.Tasks[ti].Ops[oi].E = -1
+				}
+			}
+		}
+		p := r.Intn(2)
+		// a long critical section on a Locker of that provider
+		for ti := range c.Tasks {
+			if int(c.Knobs["locker_"+c.Tasks[ti].Name])%2 == p {
+				oi := r.Intn(len(c.Tasks[ti].Ops))
+				if c.Tasks[ti].Ops[oi].K != "sleep" {
+					c.Tasks[ti].Ops[oi].D = int64(lease*3/4) + r.I64n(int64(lease))
+				}
+				break
+			}
+		}
+		c.Tasks = append(c.Tasks, sim.Task{Name: "tS", Ops: []sim.Op{
+			{K: "sleep", D: r.I64n(int64(lease))},
+			{K: "shutdown", N: int64(p)},
+		}})
+		c.Knobs["locker_tS"] = 0
 	}
 }
 
@@ -258,6 +298,15 @@ func genC05(r *sim.Rng, c *sim.Case, tier string, idx int) {
 			}
 			c.Faults = append(c.Faults, sim.Fault{Seam: "renew", Kind: "req_lost", Ord: ord})
 		}
+		if r.Chance(1, 5) {
+			// the holder's provider is shut down while the lock is held: the tenure goes on
+			// until Unlock (contenders of that provider now fail, the others keep waiting)
+			c.Tasks = append(c.Tasks, sim.Task{Name: "tS", Ops: []sim.Op{
+				{K: "sleep", D: r.I64n(int64(hold))},
+				{K: "shutdown", N: 0},
+			}})
+			c.Knobs["locker_tS"] = 0
+		}
 	case "s2":
 		nc := 1 + r.Intn(2)
 		c.Knobs["lockers"] = int64(1 + nc)
@@ -302,7 +351,29 @@ func genC05(r *sim.Rng, c *sim.Case, tier string, idx int) {
 		t0.Ops = append(t0.Ops, sim.Op{K: "lockctx", E: -1, D: int64(hold)})
 		if r.Chance(1, 2) {
 			// immediate re-acquire by the same Locker
-			t0.Ops = append(t0.Ops, sim.Op{K: "lockctx", E: -1, D: int64(sim.Pick(r, lease/4, lease/2, lease+lease/3))})
+			t0.Ops = append(t0.Ops, sim.Op{K: "lockctx", E: -1, D: int64(sim.Pick(r, lease/4, lease/2, lease+lease/3, 2*lease+lease/2))})
+		}
+		if r.Chance(1, 4) {
+			// a renewal call of the first tenure hangs in the storage and fails late, when
+			// the same Locker is long into its next tenure (aimed at that tenure's first
+			// renewal being in flight): whatever the stale failure arms or cancels, the
+			// second tenure's lease must be kept
+			L := sim.Pick(r, lease/50, lease/20, lease/10)
+			c.Knobs["cas_latency_ns"] = int64(L)
+			h := lease/2 + time.Duration(1+r.Intn(8))*L/8 + L
+			t0.Ops = []sim.Op{
+				{K: "lockctx", E: -1, D: int64(h)},
+				{K: "lockctx", E: -1, D: int64(2*lease + lease/2 + time.Duration(r.I64n(int64(lease))))},
+			}
+			stall := h - L + time.Duration(r.I64n(int64(L)))
+			if r.Chance(1, 3) {
+				stall = h - 2*L + time.Duration(r.I64n(int64(4*L)))
+			}
+			c.Faults = append(c.Faults, sim.Fault{Seam: "renew", Kind: "stall_lost", Ord: 1, D: int64(stall)})
+			if r.Chance(2, 3) {
+				c.Knobs["bg_timers"] = int64(2 + r.Intn(2))
+				c.Knobs["bg_period_ns"] = int64(sim.Pick(r, lease/16, lease/7, lease/3))
+			}
 		}
 		c.Tasks = append(c.Tasks, t0)
 		c.Knobs["locker_t0"] = 0
